@@ -65,7 +65,7 @@ def hook_kind_hint(hook):
 
 
 def coq_obs(o):
-    return "{| o_log := %s; o_globals := %s; o_outcome := %s; o_dels := %s |}" % (
+    return "{| o_log := %s; o_globals := %s; o_outcome := %s; o_dels := %s; o_notes := [] |}" % (
         clist([clist([cstr(x) for x in row]) for row in o["log"]]),
         clist(["(%s, %s)" % (cstr(k), cstr(v)) for k, v in o["globals"]]),
         cstr(o["outcome"]),
